@@ -239,9 +239,15 @@ class C01(EvalProp):
                 text = text[1:]
                 if text.startswith('.'):
                     text = text[1:]
+            pad = None
+            if not nodollar and r.random() < 0.2:
+                # C18_outer_spaces_same_tree: blanks before and after the path
+                pad = (r.randint(0, 3), r.randint(0, 3))
+                text = ' ' * pad[0] + text + ' ' * pad[1]
             c = Case('ch%d' % i, text.encode('utf-8'), [doc], meta={'nsteps': len(spec), 'family': 'coq-chain-path'})
             c.keyc = spec
             c.nodollar = nodollar
+            c.pad = pad
             want[c.id] = 'ok:[' + ','.join(core.doc_render(v) for v in cur) + ']' if cur else 'fail'
             cases.append(c)
         go, mo = both_sides(cases)
